@@ -643,7 +643,7 @@ class BuiltinsMixin(object):
                 bc = self.class_of(v.args[0], path)
                 if isinstance(bc, ClassInfo):
                     return self.field_type(bc, v.args[1].v)
-                return None
+                return self.field_type_by_name(v.args[1].v)
             if v.op == 'item':
                 bt = self.typeof(v.args[0], path)
                 if bt is None:
@@ -685,6 +685,25 @@ class BuiltinsMixin(object):
         if t[0] == 'b' and t[1] == 'dict' and len(t) > 2:
             return t[2]
         return None
+
+    _fbyname = None
+
+    def field_type_by_name(self, name):
+        """receiver of unknown class: if every class that assigns a field of
+        this name gives it the same container kind, use it"""
+        if self._fbyname is None:
+            self._fbyname = {}
+        if name in self._fbyname:
+            return self._fbyname[name]
+        kinds = set()
+        for c in self.prog.classes.values():
+            if any(isinstance(fn, ast.FunctionDef) and
+                   ('self.%s =' % name) in ast.unparse(fn)
+                   for fn in c.attrs.values()):
+                kinds.add(self.field_type(c, name))
+        t = kinds.pop() if len(kinds) == 1 else None
+        self._fbyname[name] = t
+        return t
 
     _ftypes = None
 
@@ -1414,10 +1433,11 @@ class BuiltinsMixin(object):
                                Tup([self.snapshot(a, path) for a in args])))]
         if isinstance(recv, Tup) and name == '__iter__':
             return [(path, App('iter', recv))]
+        sargs = tuple(self.snapshot(a, path) for a in args)
         if name in MUTATORS:
-            self.event(path, 'mutate', recv, name, tuple(args), node)
+            self.event(path, 'mutate', recv, name, sargs, node)
         else:
-            self.event(path, 'mcall', recv, name, tuple(args), node)
+            self.event(path, 'mcall', recv, name, sargs, node)
         if name in ('keys', 'values', 'items'):
             return [(path, App('dictview', Const(name), recv))]
         if name == '__iter__':
